@@ -11,7 +11,7 @@
 (*   call : [op |-> ..., args]                                             *)
 (*   o    : outcome                                                        *)
 (***************************************************************************)
-EXTENDS MB2Header, TLC
+EXTENDS MB2Builder, TLC
 
 Props == {"C01", "C02", "C03", "C04", "C05", "C06", "C07", "C08", "C09", "C10",
           "C11", "C12", "C13", "C14", "C15", "C16", "C17", "C18", "C19", "C20"}
@@ -21,13 +21,29 @@ Al(c) == IF Has(c, "al") THEN c.al ELSE 0
 \* ---- tracked state -------------------------------------------------------------
 \* loaded : "none" | "bi" | "hdr"
 \* its    : iterator id |-> [kind, k (items yielded so far), dead]
-TrkInit == [loaded |-> "none", its |-> <<>>]
+TrkInit == [loaded |-> "none", its |-> <<>>,
+            hasb |-> FALSE, bld |-> <<>>, built |-> <<>>,            \* boot-information builder: supplied tags, built bytes
+            hashb |-> FALSE, hbld |-> <<>>, harch |-> 0, hbuilt |-> <<>>]
 HasIt(trk, id) == id \in DOMAIN trk.its
 ItOf(trk, id) == trk.its[id]
 SetIt(trk, id, v) == [trk EXCEPT !.its = (id :> v) @@ trk.its]
 
+\* the supplied tag as the builder received it: its bytes up to its own size field
+SuppliedImg(bytes, isHdr) ==
+  LET sz == IF Len(bytes) >= 8 THEN U32At(bytes, 4) ELSE 0 IN
+  IF sz >= 8 /\ sz <= Len(bytes) THEN SubSeq(bytes, 1, sz) ELSE bytes
 Advance(c, trk, call, o) ==
   CASE call.op = "load" -> [trk EXCEPT !.loaded = IF o.k = "ok" THEN "bi" ELSE "none"]
+    [] call.op = "b_new" -> [trk EXCEPT !.hasb = TRUE, !.bld = <<>>, !.built = <<>>]
+    [] call.op = "hb_new" -> [trk EXCEPT !.hashb = TRUE, !.hbld = <<>>, !.hbuilt = <<>>, !.harch = call.arch]
+    [] call.op = "b_set" ->
+         IF o.k = "ok" /\ trk.hasb THEN [trk EXCEPT !.bld = Append(trk.bld, [slot |-> call.slot, img |-> SuppliedImg(o.v.bytes, FALSE)])]
+         ELSE IF o.k \in {"panic", "crash", "hang"} THEN [trk EXCEPT !.hasb = FALSE] ELSE trk
+    [] call.op = "hb_set" ->
+         IF o.k = "ok" /\ trk.hashb THEN [trk EXCEPT !.hbld = Append(trk.hbld, [slot |-> call.slot, img |-> SuppliedImg(o.v.bytes, TRUE)])]
+         ELSE IF o.k \in {"panic", "crash", "hang"} THEN [trk EXCEPT !.hashb = FALSE] ELSE trk
+    [] call.op = "b_build" -> [trk EXCEPT !.hasb = FALSE, !.built = IF o.k = "ok" THEN o.v.bytes ELSE <<>>]
+    [] call.op = "hb_build" -> [trk EXCEPT !.hashb = FALSE, !.hbuilt = IF o.k = "ok" THEN o.v.bytes ELSE <<>>]
     [] call.op = "hload" -> [trk EXCEPT !.loaded = IF o.k = "ok" THEN "hdr" ELSE "none"]
     [] call.op = "htags" ->
          IF o.k = "unit" THEN SetIt(trk, call.it, [kind |-> "htags", k |-> 0, cp |-> FALSE, dead |-> FALSE]) ELSE trk
@@ -348,6 +364,56 @@ C13_Accept(c, trk, call, o) ==
   ELSE IF Al(c) # 0 THEN o.k = "err"                \* the statement is about 8-aligned buffers; misaligned ones are refused
   ELSE AcceptHdrFind(IF Has(c, "memx") THEN HdrFindSpecX(c.memx, 8192) ELSE HdrFindSpec(c.mem, 8192), o)
 
+\* ---- construction side: C07 / C16 / C17 / C06 / C12 --------------------------------------------------
+CtorKind(call) == IF call.op = "construct" THEN call.kind ELSE call.slot
+BoxedKind(name) == name \in {"custom", "info_req"} \/ (name \in InfoKindNames /\ InfoKind(name).dst)
+AcceptCtor(call, o) ==
+  LET name == CtorKind(call) IN
+  IF CtorPanics(name, call) THEN o.k = "panic"
+  ELSE LET E == Enc(name, call) IN
+       /\ o.k = "ok"
+       /\ EqUpTo(o.v.bytes, E, Len(E), name = "efi_mmap" /\ Has(call, "descs"))
+       /\ o.v.sv = RoundUp8(Len(E))
+       /\ (Has(o.v, "id_const") => o.v.id_const = CtorId(name, call))
+       /\ (Has(o.v, "place") => \A i \in 1..Len(o.v.place) : o.v.place[i].ok)       \* byte view obtainable wherever placed
+       /\ (Has(o.v, "as_bytes") => o.v.as_bytes = o.v.sv)
+       /\ (Has(o.v, "rb") => o.v.rb = [k |-> "ok", v |-> IF call.text # <<>> /\ call.text[Len(call.text)] = 0
+                                                          THEN SubSeq(call.text, 1, FirstNul(call.text) - 1) ELSE call.text])
+C07_Accept(c, trk, call, o) ==
+  IF call.op = "construct" \/ (call.op = "b_set" /\ trk.hasb) \/ (call.op = "hb_set" /\ trk.hashb)
+  THEN AcceptCtor(call, o) ELSE TRUE
+\* C17 (build side): string tags store the text and exactly one terminating NUL
+C17_Build(c, trk, call, o) ==
+  IF call.op \in {"construct", "b_set"} /\ CtorKind(call) \in {"cmdline", "bootloader", "module"}
+     /\ (call.op = "construct" \/ trk.hasb)
+  THEN AcceptCtor(call, o) ELSE TRUE
+NewBoxedHead(call, total) ==
+  CASE call.h = "htag" -> U16Bytes(1) \o U16Bytes(0) \o U32Bytes(total)
+    [] OTHER -> call.typ \o U32Bytes(total)
+C16_Accept(c, trk, call, o) ==
+  CASE call.op = "new_boxed" ->
+         LET body == FlatMap(LAMBDA x : x, call.slices)
+             total == 8 + Len(body)
+             E == NewBoxedHead(call, total) \o body IN
+         /\ o.k = "ok" /\ EqUpTo(o.v.bytes, E, total, FALSE) /\ HeapObjOk(o.v, total)
+         /\ (Has(o.v, "clone") => EqUpTo(o.v.clone.bytes, E, total, FALSE) /\ HeapObjOk(o.v.clone, total))
+    [] call.op = "construct" /\ BoxedKind(call.kind) /\ ~CtorPanics(call.kind, call) ->
+         o.k = "ok" =>
+           LET total == IF Len(o.v.bytes) >= 8 THEN U32At(o.v.bytes, 4) ELSE 0 IN
+           /\ HeapObjOk(o.v, total)
+           \* cloning is the identity: same declared size, same bytes up to it
+           /\ (Has(o.v, "clone") => /\ EqUpTo(o.v.clone.bytes, o.v.bytes, total, FALSE)
+                                    /\ HeapObjOk(o.v.clone, total))
+    [] OTHER -> TRUE
+C06_Accept(c, trk, call, o) ==
+  CASE call.op = "b_build" -> IF ~trk.hasb THEN o.k = "skipped" ELSE o.k = "ok" /\ AcceptInfoBuild(trk.bld, o.v)
+    [] call.op = "b_load" -> IF trk.built = <<>> THEN TRUE ELSE o.k = "ok" /\ o.v.total = Len(trk.built)
+    [] OTHER -> TRUE
+C12_Accept(c, trk, call, o) ==
+  CASE call.op = "hb_build" -> IF ~trk.hashb THEN o.k = "skipped" ELSE o.k = "ok" /\ AcceptHdrBuild(trk.harch, trk.hbld, o.v)
+    [] call.op = "hb_load" -> IF trk.hbuilt = <<>> THEN TRUE ELSE o.k = "ok" /\ o.v.length = U32Bytes(Len(trk.hbuilt))
+    [] OTHER -> TRUE
+
 \* ---- C01: never outside the region, never a crash, references inside the owning tag ------------
 InfoOps == {"load", "tags", "module_tags", "efi_areas", "elf_sections", "elf_sections_deprecated", "next", "clone",
             "len", "size_hint", "get", "field", "str", "area", "dbg", "elf_field", "elf_name"}
@@ -369,7 +435,23 @@ C01_Accept(c, trk, call, o) ==
 
 \* ---- reference design of the session (constructive; drives the MC_* models) -----------
 \* ds: loaded, its: id |-> [kind, cur, end, dead]
-DsInit == [loaded |-> "none", its |-> <<>>]
+DsInit == [loaded |-> "none", its |-> <<>>, hasb |-> FALSE, bld |-> <<>>, built |-> <<>>,
+           hashb |-> FALSE, hbld |-> <<>>, harch |-> 0, hbuilt |-> <<>>]
+\* a heap object as the reference design lays it out: one allocation of the rounded size, released once
+HeapOutcome(E) ==
+  LET sv == RoundUp8(Len(E)) IN
+  [bytes |-> PadTo8(E), sv |-> sv, al |-> 0, obj |-> 1, as_bytes |-> sv,
+   allocs |-> <<[ev |-> "alloc", id |-> 1, size |-> sv, align |-> 8]>>,
+   drops |-> <<[ev |-> "dealloc", id |-> 1, size |-> sv, align |-> 8]>>]
+DesignCtor(call) ==
+  LET name == CtorKind(call) IN
+  IF CtorPanics(name, call) THEN Panic
+  ELSE LET E == Enc(name, call) IN
+       IF BoxedKind(name) THEN
+          LET v == [id_const |-> CtorId(name, call)] @@ HeapOutcome(E) IN
+          Ok(IF Has(call, "clone") /\ call.clone THEN [clone |-> HeapOutcome(E)] @@ v ELSE v)
+       ELSE Ok([bytes |-> PadTo8(E), sv |-> RoundUp8(Len(E)), al |-> 0, id_const |-> CtorId(name, call),
+                place |-> <<[res |-> 0, ok |-> TRUE]>>])
 DsHasIt(ds, id) == id \in DOMAIN ds.its
 DsSetIt(ds, id, v) == [ds EXCEPT !.its = (id :> v) @@ ds.its]
 
@@ -497,6 +579,29 @@ DesignStep(c, ds, call) ==
               ELSE [o |-> Unit, ds |-> ds]
     [] IsInfoRead(call) ->
          [o |-> IF ds.loaded = "bi" THEN DesignInfoRead(c.mem, call) ELSE Skipped, ds |-> ds]
+    [] call.op \in {"construct", "b_set", "hb_set"} ->
+         IF (call.op = "b_set" /\ ~ds.hasb) \/ (call.op = "hb_set" /\ ~ds.hashb) THEN [o |-> Skipped, ds |-> ds]
+         ELSE LET r == DesignCtor(call) IN
+              [o |-> r, ds |-> IF r.k # "ok" THEN ds
+                               ELSE IF call.op = "b_set" THEN [ds EXCEPT !.bld = Append(ds.bld, [slot |-> call.slot, img |-> Enc(call.slot, call)])]
+                               ELSE IF call.op = "hb_set" THEN [ds EXCEPT !.hbld = Append(ds.hbld, [slot |-> call.slot, img |-> Enc(call.slot, call)])]
+                               ELSE ds]
+    [] call.op = "new_boxed" ->
+         LET body == FlatMap(LAMBDA x : x, call.slices)  total == 8 + Len(body)
+             v == HeapOutcome(NewBoxedHead(call, total) \o body) IN
+         [o |-> Ok(IF Has(call, "clone") /\ call.clone THEN [clone |-> v] @@ v ELSE v), ds |-> ds]
+    [] call.op = "b_new" -> [o |-> Unit, ds |-> [ds EXCEPT !.hasb = TRUE, !.bld = <<>>, !.built = <<>>]]
+    [] call.op = "hb_new" -> [o |-> Unit, ds |-> [ds EXCEPT !.hashb = TRUE, !.hbld = <<>>, !.hbuilt = <<>>, !.harch = call.arch]]
+    [] call.op = "b_build" ->
+         IF ~ds.hasb THEN [o |-> Skipped, ds |-> ds]
+         ELSE LET v == DesignInfoBuild(ds.bld) IN [o |-> Ok(v), ds |-> [ds EXCEPT !.hasb = FALSE, !.built = v.bytes]]
+    [] call.op = "hb_build" ->
+         IF ~ds.hashb THEN [o |-> Skipped, ds |-> ds]
+         ELSE LET v == DesignHdrBuild(ds.harch, ds.hbld) IN [o |-> Ok(v), ds |-> [ds EXCEPT !.hashb = FALSE, !.hbuilt = v.bytes]]
+    [] call.op = "b_load" ->
+         [o |-> IF ds.built = <<>> THEN Skipped ELSE Ok([total |-> Len(ds.built)]), ds |-> ds]
+    [] call.op = "hb_load" ->
+         [o |-> IF ds.hbuilt = <<>> THEN Skipped ELSE Ok([length |-> U32Bytes(Len(ds.hbuilt))]), ds |-> ds]
     [] call.op = "hload" ->
          LET r == DesignHLoad(IsNull(call), c.mem) IN
          [o |-> r, ds |-> [ds EXCEPT !.loaded = IF r.k = "ok" THEN "hdr" ELSE "none"]]
@@ -531,12 +636,16 @@ AcceptP(p, c, trk, call, o) ==
     [] p = "C03" -> C03_Accept(c, trk, call, o) /\ C03_InfoRead(c, trk, call, o)
     [] p = "C04" -> C04_Accept(c, trk, call, o)
     [] p = "C05" -> C05_Accept(c, trk, call, o) /\ C05_HAccept(c, trk, call, o)
+    [] p = "C06" -> C06_Accept(c, trk, call, o)
+    [] p = "C07" -> C07_Accept(c, trk, call, o)
+    [] p = "C12" -> C12_Accept(c, trk, call, o)
+    [] p = "C16" -> C16_Accept(c, trk, call, o)
     [] p = "C09" -> C09_Accept(c, trk, call, o)
     [] p = "C10" -> C10_Accept(c, trk, call, o)
     [] p = "C11" -> C11_Accept(c, trk, call, o)
     [] p = "C13" -> C13_Accept(c, trk, call, o)
     [] p = "C15" -> C15_Accept(c, trk, call, o)
-    [] p = "C17" -> C17_Accept(c, trk, call, o)
+    [] p = "C17" -> C17_Accept(c, trk, call, o) /\ C17_Build(c, trk, call, o)
     [] p = "C14" -> C14_Accept(c, trk, call, o)
     [] p = "C18" -> C18_Accept(c, trk, call, o)
     [] p = "C19" -> C19_Accept(c, trk, call, o)
